@@ -95,6 +95,7 @@ type Engine struct {
 	features []string
 	specErrors []string
 	guardCache map[string][]string
+	woCache    map[string][]writeOnceField
 	wsCache  map[string]*WriteSet
 	usedContracts map[string]bool
 	stack    []*ssa.Function
